@@ -1112,6 +1112,18 @@ class UGrid(DimensionConvention[UGridKind, UGridIndex]):
             dimensions[UGridKind.edge] = [self.topology.edge_dimension]
         return dimensions
 
+    @property
+    def grid_shape(self) -> dict[UGridKind, Sequence[int]]:
+        # The mesh can name an edge dimension that no variable uses,
+        # the topology derives the number of edges in that case
+        shape: dict[UGridKind, Sequence[int]] = {
+            UGridKind.node: (self.topology.node_count,),
+            UGridKind.face: (self.topology.face_count,),
+        }
+        if self.topology.has_edge_dimension:
+            shape[UGridKind.edge] = (self.topology.edge_count,)
+        return shape
+
     def unpack_index(self, index: UGridIndex) -> tuple[UGridKind, Sequence[int]]:
         return index[0], index[1:]
 
